@@ -29,11 +29,13 @@ RULES["C06"] = ("cases: (a,x,x2) with a = k/2, k from shapes the tests use / [1,
                 "with d log-uniform +-[1e-16,0.3] (both switch-over lines, both sides), a+z sqrt(a) z in [-8,12], a-u sqrt(a) and a+u sqrt(a) (where the series / continued fraction need the most iterations), uniform [0,20a+200], [0,3a], "
                 "0, negative, exactly ON the lines x = 1 and x = a and one ulp to either side for every a = k/2, k = 1..600 (sweep), the prefactor-underflow cut-off (a ln x - x - lgamma a = -709.78, found by bisection) +- drawn width, tiny x; "
                 "in a third of the cases 1-3 earlier calls with shapes a + j*2^p (p in 6..17, j in 1..3; possibly beyond 5000) precede the call (history); x2 >= x is a 1-4 ulp neighbour, a relative 1e-12..0.3 neighbour or a far point (monotonicity). "
+                "Dense windows (TestC06Window, TestC06DenseSweep): 2000..20000 equally spaced consecutive abscissae (step >= 1 ulp) just above / just below / across the switch-over max(1,a), across x = 1, in the bulk, or wide; every point judged for NaN, range and "
+                "monotonicity against its predecessor, 16 points per window against the big-float reference, and for a <= 128 every point against a float64 closed form (itself re-validated against the reference inside the window); deterministic sweep: 250000 (thorough 2*10^6) points on [sw/2,sw] and on [sw,3sw/2] for 24 shapes. "
                 "non-trivial: reference Q strictly inside (1e-300,1). distinct: hash of (2a,x,x2).")
 PROPS["C06"] = {
     "level": "exploration",
-    "quick": shards(8, "TestC06", 4000, floor=2000) + [S("TestC06Sweep", floor=1000)],
-    "thorough": [S("TestC06Sweep", floor=1000)] + shards(14, "TestC06", 150000, floor=40000, timeout=3400) + [S("FuzzIgamc", fuzz="FuzzIgamc", fuzztime=240, parallel=4, floor=1000, weight=4, timeout=600)],
+    "quick": shards(8, "TestC06", 4000, floor=2000) + [S("TestC06Sweep", floor=1000), S("TestC06DenseSweep", floor=500)] + shards(4, "TestC06Window", 300, floor=150),
+    "thorough": [S("TestC06Sweep", floor=1000), S("TestC06DenseSweep", floor=5000, timeout=3400)] + shards(8, "TestC06Window", 12000, floor=3000, timeout=3400) + shards(14, "TestC06", 150000, floor=40000, timeout=3400) + [S("FuzzIgamc", fuzz="FuzzIgamc", fuzztime=240, parallel=4, floor=1000, weight=4, timeout=600)],
     "assumptions": ["reference = finite-sum closed form in 320-bit big.Float, validated against mpmath (600 points) on every run",
                     "math.Erfc trusted (<= 1 ulp)", "x > 20a+200 is outside the stated range and not generated"],
 }
